@@ -572,15 +572,14 @@ def coq_body(sc, r):
     # (proposed_fixes/C15-mc-no-final-reset.diff applied) MonteCarlo.run is modelled by mc_run_fixed
     mc_open = any(k['id'] == 'mc-no-final-reset' for k in vlib.load_known_findings(PROP))
     # history on ONE Tolerancing object: the machine state (lens, sampler indices, stream) is threaded through the steps
-    L.append("""Fixpoint adv (j n : nat) (s : st (O:=FOps) clens (list float) unit) : st (O:=FOps) clens (list float) unit :=
-  match n with
-  | O => s
-  | S n' => match nth_error (sams s) j with
-            | Some sm => match sample (O:=FOps) drw (rng s) sm with
-                         | Some (_, sm', g') => adv j n' (mkSt (lens s) (set_nth (sams s) j sm') g')
-                         | None => s end
-            | None => s end
-  end.""")
+    L.append("""Definition ST := st (O:=FOps) (clens (O:=FOps)) (list float) unit.
+Definition adv1 (j : nat) (s : ST) : ST :=
+  match nth_error (sams s) j with
+  | Some sm => match sample (O:=FOps) drw (rng s) sm with
+               | Some (_, sm', g') => mkSt (lens s) (set_nth (sams s) j sm') g'
+               | None => s end
+  | None => s end.
+Fixpoint adv (j n : nat) (s : ST) : ST := match n with 0%nat => s | S n' => adv j n' (adv1 j s) end.""")
     body = 'Some (s, rows, aok)'
     pos = len(r['trials'])
     steps = list(zip(history_of(sc), r['steps']))
@@ -604,7 +603,7 @@ def coq_body(sc, r):
     L += defs
     L.append('Definition res := let s := s0 in let rows : list (row (O:=FOps)) := [] in let aok := true in\n  ' + body + '.')
     ana = [k for k, (st, info) in enumerate(steps) if st[0] != 'advance']
-    L.append('Definition p_steps_nominal := ' + ' && '.join(f'close_list tolS i_after_{k} i_nominal' for k in ana) + '.')
+    p_steps = 'Definition p_steps_nominal := ' + ' && '.join(f'close_list tolS i_after_{k} i_nominal' for k in ana) + '.'
     # implementation data
     L.append('Definition i_states : list (list float) := [' + ';\n  '.join(fl(snap_vec(tr['snap'])) for tr in r['trials']) + '].')
     L.append('Definition i_values : list (list float) := [' + '; '.join(fl(tr['values']) for tr in r['trials']) + '].')
@@ -614,6 +613,7 @@ def coq_body(sc, r):
     L.append(f'Definition i_after_run := {fl(snap_vec(r["after_run"]))}.')
     L.append(f'Definition i_after_reset := {fl(snap_vec(r["after_reset"]))}.')
     L.append(f'Definition i_init : list float := {fl(r["pert_init"] + r["comp_init"])}.')
+    L.append(p_steps)
     L.append(r'''
 Definition tolV := 0x1.19799812dea11p-40.   (* 1e-12 *)
 Fixpoint all2 {A B} (f : A -> B -> bool) (a : list A) (b : list B) : bool :=
